@@ -254,6 +254,8 @@ func runC20(p *P, r *R) {
 	// ---- R20.5
 	r.ob("R20.5", "a Close() issued while the callback runs is finished by the callback goroutine", p.pos(body.Pos()), c11DeferredCloseFinished(p), true,
 		"the goroutine calls close() on the callbackCloseState edge, Close() sets that state before its CAS, and close() treats the deferred state like opened (C10 R10.3)")
+	// the close routine treats the deferred state like opened, and only the exported Close enters it (shared with C10)
+	borrow(p, r, "C10", runC10, map[string]string{"R10.3": "R20.5", "R10.2": "R20.5", "R10.8": "R20.5"}, func(o Ob) bool { return constructHas(o, "localClosing", "issued while a callback runs") })
 	// SetCallbacks installs once
 	if sc := p.fn("(*Stream).SetCallbacks"); sc != nil {
 		ok := false
